@@ -263,7 +263,7 @@ class MoveGlobal:
         )
         self.import_tools = self.tools.import_tools
 
-    def _import_filter(self, stmt):
+    def _import_filter(self, stmt, folder=None):
         module_name = libutils.modname(self.source)
 
         if isinstance(stmt.import_info, importutils.NormalImport):
@@ -273,6 +273,9 @@ class MoveGlobal:
                 for name, alias in stmt.import_info.names_and_aliases
             )
         elif isinstance(stmt.import_info, importutils.FromImport):
+            if stmt.import_info.level > 0 and folder is not None:
+                # A relative import names the source module by what it resolves to
+                return self._imports_from_source_relatively(stmt.import_info, folder)
             # Affect statements importing from the source package
             if "." in module_name:
                 package_name, basename = module_name.rsplit(".", 1)
@@ -283,6 +286,18 @@ class MoveGlobal:
                     return True
             return stmt.import_info.module_name == module_name
         return False
+
+    def _imports_from_source_relatively(self, import_info, folder):
+        context = importutils.importinfo.ImportContext(self.project, folder)
+        resource = import_info.get_imported_resource(context)
+        if resource is None:
+            return False
+        if resource == self.source:
+            return True
+        basename = libutils.modname(self.source).rsplit(".", 1)[-1]
+        return resource == self.source.parent and any(
+            basename == name for name, alias in import_info.names_and_aliases
+        )
 
     def _check_exceptional_conditions(self):
         if self._is_variable(self.old_pyname):
@@ -366,8 +381,11 @@ class MoveGlobal:
                 should_import = source is not None
                 # Removing out of date imports
                 pymodule = self.tools.new_pymodule(pymodule, source)
+                folder = file_.parent
                 source = self.import_tools.organize_imports(
-                    pymodule, sort=False, import_filter=self._import_filter
+                    pymodule,
+                    sort=False,
+                    import_filter=lambda stmt: self._import_filter(stmt, folder),
                 )
                 # Adding new import
                 if should_import:
